@@ -135,16 +135,26 @@ def run(ctx):
         model_mm = []      # ordering-only divergence, already reported with a failing execution of the view model
     if model_mm and not spec_mm:
         # SEARCH: the tie broke but no explored execution violated the property.  Look harder around the
-        # diverging kinds: one more preemption, more executions per program, more and different random programs;
-        # only the property oracle (evaluated on the implementation's own observations) counts here.
+        # diverging program shapes: every diverging (kind, capacity, program) is explored on its own with one more
+        # preemption and a much larger execution budget, plus more and different random programs of the diverging
+        # kinds; only the property oracle (evaluated on the implementation's own observations) counts here.
+        # Bounded: at most 16 programs, a fixed budget per program and a wall-clock limit per job.
+        import re, shlex
         kinds = sorted({m[0].split(":")[1] for m in model_mm if m[0].split(":")[0] in ("exh", "rnd")}) or KINDS
+        shapes = []
+        for m in model_mm:
+            h = re.search(r"header=\[(\w+) (\d+) (\S+)", m[2])
+            if h and h.group(1) in KINDS and (h.group(1), h.group(2), h.group(3)) not in shapes:
+                shapes.append((h.group(1), h.group(2), h.group(3)))
+        budget = 40000 if ctx.thorough() else 8000
         sjobs = []
+        for n, (k, cap, prog) in enumerate(shapes[:16]):
+            sjobs.append(("search-exhp:%s:%d" % (k, n), [exe, "exhp", k, str(bound + 1), cap, shlex.quote(prog), str(budget)]))
         for k in kinds:
             for i in range(nsh):
-                sjobs.append(("search-exh:%s:%d" % (k, i), [exe, "exh", k, str(bound + 1), str(i), str(nsh), str(ctx.seed), str(4 * maxexecs)]))
-                sjobs.append(("search-rnd:%s:%d" % (k, i), [exe, "rnd", k, str(6 * nr), str(i), str(nsh), str(ctx.seed + 1)]))
-        sr = vlib.run_pipelines(sjobs, driver)
-        ctx.cov["search_phase"] = {"kinds": kinds, "executions": sr["cases"], "spec_mismatches": sr["mismatches_spec"]}
+                sjobs.append(("search-rnd:%s:%d" % (k, i), [exe, "rnd", k, str(2 * nr), str(i), str(nsh), str(ctx.seed + 1)]))
+        sr = vlib.run_pipelines(sjobs, driver, timeout=(900 if ctx.thorough() else 150))
+        ctx.cov["search_phase"] = {"kinds": kinds, "programs": [" ".join(x) for x in shapes[:16]], "executions": sr["cases"], "spec_mismatches": sr["mismatches_spec"]}
         found = [m for m in sr["mismatch_lines"] if "kind=spec" in m[2]]
         for lbl, cmd, line in found[:2]:
             case_no = int(line.split("case=")[1].split()[0])
